@@ -55,6 +55,61 @@ def scope_functions(ctx):
     return out
 
 
+def _dynamic_refs(f, repo_only=True):
+    """[(ref node, root line)] - references of f (body and default arguments) to namespace-scope objects / static data members with dynamic initialisation"""
+    out = []
+    roots = [(e.get("expr"), e.get("ln")) for bid, i, e in f.all_elems()]
+    roots += [(p.get("default"), f.line) for p in (f.d.get("params") or []) if isinstance(p.get("default"), dict)]
+    for x, xln in roots:
+        if not isinstance(x, dict):
+            continue
+        for n in walk(x):
+            if not isinstance(n, dict) or n.get("k") != "ref" or n.get("storage") not in ("namespace", "static_member"):
+                continue
+            if repo_only and not (n.get("decl_file") or "").startswith("/repo/"):
+                continue
+            kind = n.get("init_kind")
+            if kind == "dependent" and n.get("storage") == "static_member" and not n.get("constexpr"):
+                kind = "dynamic"
+            if kind == "dynamic":
+                out.append((n, xln))
+    return out
+
+
+def _errno_discipline(f):
+    """None when f does not read errno, else True / False: every read is preceded by `errno = 0` on every path"""
+    from sa import cfg as _cfg
+
+    def is_clear(e):
+        x = e.get("expr")
+        return isinstance(x, dict) and _is_errno(x) and _clears_errno(x)
+
+    def is_read(e):
+        x = e.get("expr")
+        return isinstance(x, dict) and _is_errno(x) and not _clears_errno(x)
+    if not _cfg.find_elems(f, is_read):
+        return None
+    return _cfg.must_precede(f, is_clear, is_read)[0]
+
+
+def _fixtures(ctx):
+    """the zero-expected rules S1 / S2 / S7 on their positive and negative examples (fixtures/facts_fixtures.cpp)"""
+    from .common import fx
+    pairs = (
+        (1, "reads_dynamic_namespace_state", True, lambda g: bool(_dynamic_refs(g, repo_only=False))),
+        (1, "reads_constant_namespace_state", False, lambda g: bool(_dynamic_refs(g, repo_only=False))),
+        (2, "errno_stale", True, lambda g: _errno_discipline(g) is False),
+        (2, "errno_cleared", False, lambda g: _errno_discipline(g) is False),
+        (7, "widens_plain_char", True, lambda g: bool(_sign_extended_sites(g))),
+        (7, "widens_unsigned_char", False, lambda g: bool(_sign_extended_sites(g))),
+    )
+    for k, name, expect, pred in pairs:
+        g = fx(ctx, name)
+        if g is None:
+            continue
+        ctx.fixture(rid(ctx, k), name, pred(g), expect, "recogniser behaves on vfix::%s" % name)
+
+
 def rule_no_dynamic_namespace_state(ctx):
     rule = rid(ctx, 1)
     ctx.rule(rule, "no-dynamic-namespace-state: the functions of the property's source files read no namespace-scope object or static data "
@@ -146,6 +201,7 @@ def run(ctx):
         return
     rule_no_dynamic_namespace_state(ctx)
     rule_errno_cleared(ctx)
+    _fixtures(ctx)
     rule_special_members(ctx)
     rule_probes(ctx)
     rule_no_sign_extended_char(ctx)
@@ -336,13 +392,10 @@ def rule_probes(ctx):
     ctx.need(rule, "probe calls", n, 3)
 
 
-def rule_no_sign_extended_char(ctx):
-    """S7: a plain `char` (signed on this platform) is not widened into an unsigned integer wider than a byte - every byte >= 0x80 becomes a huge
-    number (0xE4 -> 0xFFFFFFFFFFFFFFE4): a table index, a bound check or a key computed from it treats non-ASCII letters differently"""
+def _sign_extended_sites(f):
+    """[(text, target name, bits, line)] - declarations, assignments and explicit casts of f that widen a plain char into an unsigned type wider than a byte"""
     from sa import ir
     from sa.ir import fmt
-    rule = rid(ctx, 7)
-    ctx.rule(rule, "no-sign-extended-char: no initialisation, assignment or cast widens a plain char into an unsigned integer type wider than 8 bits (static_cast<unsigned char> first is the cure)")
 
     def signed_byte(x):
         x = ir.unwrap(x)
@@ -357,37 +410,41 @@ def rule_no_sign_extended_char(ctx):
 
     def wide_unsigned(n):
         return isinstance(n, dict) and bool(n.get("u")) and isinstance(n.get("bits"), int) and n["bits"] > 8
+    out = []
+    for bid, i, e in f.all_elems():
+        x = e.get("expr")
+        if not isinstance(x, dict):
+            continue
+        for n in walk(x):
+            if not isinstance(n, dict):
+                continue
+            if n.get("k") == "decl":
+                for v in n.get("vars", []):
+                    if wide_unsigned(v) and v.get("init") is not None and signed_byte(v["init"]):
+                        out.append(("`%s %s = %s`" % (v.get("type"), v.get("name"), fmt(v["init"])[:50]), v.get("name"), v.get("bits") or 64, e.get("ln")))
+            elif n.get("k") == "bin" and n.get("op") == "=" and wide_unsigned(ir.unwrap(n.get("l"))) and signed_byte(n.get("r")):
+                out.append(("`%s`" % fmt(n)[:70], fmt(n.get("l"))[:30], 64, e.get("ln")))
+            elif n.get("k") == "cast" and wide_unsigned(n) and n.get("ck") in ("static", "c", "functional") and signed_byte(n.get("e")):
+                out.append(("`%s`" % fmt(n)[:70], "cast", n.get("bits") or 64, e.get("ln")))
+    return out
 
+
+def rule_no_sign_extended_char(ctx):
+    """S7: a plain `char` (signed on this platform) is not widened into an unsigned integer wider than a byte - every byte >= 0x80 becomes a huge
+    number (0xE4 -> 0xFFFFFFFFFFFFFFE4): a table index, a bound check or a key computed from it treats non-ASCII letters differently"""
+    rule = rid(ctx, 7)
+    ctx.rule(rule, "no-sign-extended-char: no initialisation, assignment or cast widens a plain char into an unsigned integer type wider than 8 bits (static_cast<unsigned char> first is the cure)")
     fns = scope_functions(ctx)
     seen = set()
-    nsites = 0
     for f in fns:
         if (f.file, f.line) in seen and f.is_pattern:
             continue
         seen.add((f.file, f.line))
-        for bid, i, e in f.all_elems():
-            x = e.get("expr")
-            if not isinstance(x, dict):
-                continue
-            for n in walk(x):
-                if not isinstance(n, dict):
-                    continue
-                hit = None
-                if n.get("k") == "decl":
-                    for v in n.get("vars", []):
-                        if wide_unsigned(v) and v.get("init") is not None and signed_byte(v["init"]):
-                            hit = ("`%s %s = %s`" % (v.get("type"), v.get("name"), fmt(v["init"])[:50]), v.get("name"))
-                elif n.get("k") == "bin" and n.get("op") == "=" and wide_unsigned(ir.unwrap(n.get("l"))) and signed_byte(n.get("r")):
-                    hit = ("`%s`" % fmt(n)[:70], fmt(n.get("l"))[:30])
-                elif n.get("k") == "cast" and wide_unsigned(n) and n.get("ck") in ("static", "c", "functional") and signed_byte(n.get("e")):
-                    hit = ("`%s`" % fmt(n)[:70], "cast")
-                if hit:
-                    nsites += 1
-                    ctx.bad(rule, f, "sign-extended-char:%s:%s" % (short(f.qual), hit[1]),
-                            "%s widens a plain char into an unsigned %s-bit value in %s: for a byte >= 0x80 (any non-ASCII letter) char is negative here and the result is a number near 2^64 - "
-                            "comparisons, table indices and keys computed from it single out those letters" % (short(f.qual), n.get("bits") or 64, hit[0]), (f, e.get("ln")))
+        for text, target, bits, ln in _sign_extended_sites(f):
+            ctx.bad(rule, f, "sign-extended-char:%s:%s" % (short(f.qual), target),
+                    "%s widens a plain char into an unsigned %s-bit value in %s: for a byte >= 0x80 (any non-ASCII letter) char is negative here and the result is a number near 2^64 - "
+                    "comparisons, table indices and keys computed from it single out those letters" % (short(f.qual), bits, text), (f, ln))
     ctx.ok(rule, "-", "no-sign-extended-char:scanned", "%d function(s)" % len(fns), "-")
-
 
 
 def rule_result_owns(ctx):
